@@ -10,6 +10,7 @@ package props
 // single-call run.
 
 import (
+	"bufio"
 	"bytes"
 	"fmt"
 	"io"
@@ -17,6 +18,7 @@ import (
 	"strings"
 
 	"seehuhn.de/go/postscript"
+	"seehuhn.de/go/postscript/type1"
 
 	"verif/harness/mon"
 	"verif/harness/ref"
@@ -48,6 +50,23 @@ func runPlan(env *psEnv, kind string, data []byte, chunks []int, eofWithData, se
 	return o, *reads
 }
 
+type namedReader struct {
+	name string
+	r    io.Reader
+}
+
+// stdReaders returns the data behind the reader types callers actually pass.
+func stdReaders(data []byte) []namedReader {
+	return []namedReader{
+		{"bytes.Reader", bytes.NewReader(data)},
+		{"strings.Reader", strings.NewReader(string(data))},
+		{"bytes.Buffer", bytes.NewBuffer(append([]byte(nil), data...))},
+		{"bufio.Reader", bufio.NewReaderSize(&mon.PlanReader{Data: data}, 16)},
+		{"io.LimitedReader", io.LimitReader(&mon.PlanReader{Data: append(append([]byte(nil), data...), "junk behind the limit"...)}, int64(len(data)))},
+		{"io.SectionReader", io.NewSectionReader(bytes.NewReader(append(append([]byte("prefix"), data...), "suffix"...)), 6, int64(len(data)))},
+	}
+}
+
 func runC12(r *rt.Runner) {
 	env := newPSEnv()
 	nIn := r.N(800, 16000)
@@ -68,6 +87,22 @@ func runC12(r *rt.Runner) {
 				if got != refOut {
 					c.Violation("delivery|"+kind+"|"+strings.SplitN(desc, " ", 2)[0],
 						fmt.Sprintf("%s: result under the plan [%s] differs from the result when everything arrives in one read:\n  plan:      digest %s err %q\n  reference: digest %s err %q", kind, desc, got.digest, got.err, refOut.digest, refOut.err), "")
+				}
+			}
+			// the readers of the standard library, which have methods a plan
+			// reader lacks (Len, Size, ReadAt, WriteTo, ReadByte, UnreadByte,
+			// ReadRune, Seek): what they offer besides Read must not change the result
+			for _, sr := range stdReaders(it.data) {
+				d, err := runEntry(env, kind, sr.r)
+				got := outcome{digest: d}
+				if err != nil {
+					got.err = err.Error()
+				}
+				c.Eval()
+				c.Count("plan kind: " + sr.name)
+				if got != refOut {
+					c.Violation("delivery|"+kind+"|"+sr.name,
+						fmt.Sprintf("%s: the result from a %s differs from the result from a plain reader:\n  got:       digest %s err %q\n  reference: digest %s err %q", kind, sr.name, got.digest, got.err, refOut.digest, refOut.err), "")
 				}
 			}
 			check("one-byte-reads", []int{1}, false, false)
@@ -156,6 +191,94 @@ func runC12(r *rt.Runner) {
 			}
 			c.Nontrivial(append([]byte(kind+"|"), it.data...), func() string { return fmt.Sprintf("%s, %d bytes, %d split positions", it.desc, n, len(splits)) })
 		})
+	}
+
+	// a font program that needs more operations than type1.Read grants, in a
+	// file of more than a megabyte: the refusal must not depend on what the
+	// reader can tell about its size
+	r.Case("over-budget-font", func(c *rt.C) {
+		rng := c.Rand()
+		f := genFont(rng, &fontOpts{maxGlyphs: 5})
+		var fb bytes.Buffer
+		if err := f.Write(&fb, &type1.WriterOptions{Format: type1.FormatPFA}); err != nil {
+			c.Inconclusive("cannot write the base font: " + err.Error())
+			return
+		}
+		for _, iters := range []int{900000, 1100000, 2000000} {
+			data := append(append([]byte(nil), fb.Bytes()...), fmt.Sprintf("\n0 1 %d { pop } for\n%%%s\n", iters, strings.Repeat("x", 1500000))...)
+			c.SetDetail(func() string {
+				return fmt.Sprintf("a PFA font followed by `0 1 %d { pop } for` and a comment of 1.5 MB", iters)
+			})
+			refOut, _ := runPlan(env, kType1, data, nil, false, false)
+			for _, sr := range stdReaders(data) {
+				d, err := runEntry(env, kType1, sr.r)
+				got := outcome{digest: d}
+				if err != nil {
+					got.err = err.Error()
+				}
+				c.Eval()
+				c.Count("over-budget font: " + sr.name)
+				if got != refOut {
+					c.Violation("delivery|type1|over-budget|"+sr.name, fmt.Sprintf("type1.Read of a font program with a %d-iteration loop behind it (file size %d): from a %s the outcome is digest %s err %q, from a plain reader digest %s err %q", iters, len(data), sr.name, got.digest, got.err, refOut.digest, refOut.err), "")
+				}
+			}
+			c.Count("over-budget font outcome: " + map[bool]string{true: "refused", false: "read"}[refOut.err != ""])
+		}
+		c.Nontrivial([]byte("over-budget"), nil)
+	})
+
+	// inputs at the exact size limit of a reader: afm.Read limits a line to
+	// 16 MiB; whether a line of exactly that size is accepted must not depend
+	// on how the end of input is reported (bufio.Scanner declares a full buffer
+	// "too long" unless the end-of-file indication arrived with the last bytes)
+	{
+		const maxLine = 1 << 24
+		lens := []int{maxLine - 1, maxLine}
+		tails := []string{"", "\r", "\n"}
+		if !r.Quick() {
+			lens = []int{maxLine - 2, maxLine - 1, maxLine, maxLine + 1}
+			tails = []string{"", "\r", "\n", "\r\n", "\rEndFontMetrics\n", "\nEndFontMetrics"}
+		}
+		for _, L := range lens {
+			for _, tail := range tails {
+				L, tail := L, tail
+				r.Case("line-limit", func(c *rt.C) {
+					head := "StartFontMetrics 4.1\nFontName A\n"
+					data := []byte(head + "Notice " + strings.Repeat("x", L-7) + tail)
+					c.SetDetail(func() string {
+						return fmt.Sprintf("AFM file %q + a line of %d bytes (\"Notice xxx...\") + %q", head, L, tail)
+					})
+					refOut, _ := runPlan(env, kAFM, data, nil, false, false)
+					for _, pl := range []struct {
+						desc   string
+						chunks []int
+						ewd    bool
+						bounds []int
+					}{
+						{"data-with-eof", nil, true, nil},
+						{"64KiB-chunks", []int{65536}, false, nil},
+						{"64KiB-chunks-data-with-eof", []int{65536}, true, nil},
+						{"4099-byte-chunks-data-with-eof", []int{4099}, true, nil},
+						{"split-in-front-of-the-line-end", nil, false, []int{len(head) + L}},
+						{"split-in-front-of-the-line-end-data-with-eof", nil, true, []int{len(head) + L}},
+					} {
+						if len(pl.bounds) > 0 && pl.bounds[0] >= len(data) {
+							continue
+						}
+						got, reads := runPlan(env, kAFM, data, pl.chunks, pl.ewd, false, pl.bounds...)
+						c.Eval()
+						c.Runner().Count("reader calls logged", int64(reads))
+						c.Count("line-limit plan: " + pl.desc)
+						if got != refOut {
+							c.Violation(fmt.Sprintf("line-limit|afm|%d%+d|%q|%s", maxLine, L-maxLine, tail, pl.desc),
+								fmt.Sprintf("afm.Read of a file whose last line has %d bytes (limit %d) followed by %q: the result under the plan [%s] differs from the result when everything arrives in one read:\n  plan:      digest %s err %q\n  reference: digest %s err %q", L, maxLine, tail, pl.desc, got.digest, got.err, refOut.digest, refOut.err), "")
+						}
+					}
+					c.Count("line-limit outcome: " + map[bool]string{true: "rejected", false: "accepted"}[refOut.err != ""])
+					c.Nontrivial([]byte(fmt.Sprintf("line-limit|%d|%q", L, tail)), func() string { return fmt.Sprintf("line of %d bytes + %q", L, tail) })
+				})
+			}
+		}
 	}
 
 	// multi-call clause, failing programs: every split position
